@@ -13,14 +13,15 @@ Full statement (FALSE, kept as a comment):
         evalSqlite false op escape true p s = (pyTest op.kind p' s' != op.neg)
       -- p', s' = p, s  (case-sensitive variants)  or  lowerS p, lowerS s  (i-variants)
 
-It fails for exactly three input shapes, each with a `_counterexample` below and a
+It fails for exactly two input shapes, each with a `_counterexample` below and a
 known finding replayed on the real code:
-  * escape = "_" and the operand contains "%"   (`%` → `_%` → `__%`: the third
-    `str.replace` re-escapes the escape character inserted by the second)
   * escape = "%"   (the compiler's own wildcards are `%`, which is now the escape)
   * i-variants rendered with lower() and an escape character that is an ASCII letter
     (lower() is applied to the escaped bind value, destroying/creating escapes)
-The `…_partial` theorems carry the forced hypotheses.
+The `…_partial` theorems carry the forced hypotheses.  A third shape (escape = "_" with
+"%" in the operand: the old three-`replace` code re-escaped its own escape character) was
+found here, fixed in the repository (single-pass escaping) and is now covered by the
+theorems: `escapeLike_spec` is unconditional and `_` is an admissible escape everywhere.
 -/
 namespace SaVerif.Props.C08
 open SaVerif.Like SaVerif.Gen.LikeDefaults
@@ -50,44 +51,41 @@ example : pyTest .endswith ['a'] ['a', 'b'] = false := by decide
 
 /-! ## 1. the escaping code -/
 
-/-- **escapeLike_spec_partial**: the three `str.replace` calls put exactly one escape
-    character in front of every `%`, `_` and escape character — provided the escape is
-    not `_`, or the operand has no `%`. -/
-theorem escapeLike_spec_partial (esc : Char) (p : List Char) (h : esc ≠ '_' ∨ '%' ∉ p) :
-    escapeLike esc p = lit esc p := by
-  by_cases hu : esc = '_'
-  · subst hu
-    cases h with
-    | inl h => exact absurd rfl h
-    | inr h => exact escapeLike_eq_lit_underscore p h
-  · by_cases hp : esc = '%'
-    · subst hp; exact escapeLike_eq_lit_percent p
-    · exact escapeLike_eq_lit_ordinary esc hp hu p
+/-- **escapeLike_spec**: for every escape character and every operand, the code puts exactly
+    one escape character in front of every `%`, `_` and escape character. -/
+theorem escapeLike_spec (esc : Char) (p : List Char) : escapeLike esc p = lit esc p :=
+  escapeLike_eq_lit esc p
 
 example : escapeLike '/' ['a', '%', '/', '_'] = ['a', '/', '%', '/', '/', '/', '_'] := by decide
-
-/-- with `escape="_"` a `%` in the operand becomes `__%` = literal `_` + live wildcard -/
-theorem escapeLike_spec_counterexample :
-    escapeLike '_' ['%'] = ['_', '_', '%'] ∧ lit '_' ['%'] = ['_', '%'] := by decide
+example : escapeLike '_' ['%', '_'] = ['_', '%', '_', '_'] := by decide
 
 /-! ## 2. SQLite, `PRAGMA case_sensitive_like=ON` -/
 
-/-- **sqlite_like_correct_partial**: for every operand `p`, text `s` and ordinary escape
-    character, the rendered pattern matches exactly when the Python test holds. -/
-theorem sqlite_like_correct_partial (esc : Char) (h1 : esc ≠ '%') (h2 : esc ≠ '_')
+theorem mAll_of_ne (esc : Char) (h1 : esc ≠ '%') : mAll (some esc) = some '%' := by
+  simp [mAll, h1]
+
+/-- **sqlite_like_correct_partial**: for every operand `p`, text `s` and escape character
+    other than `%` (so `_` included), the rendered pattern matches exactly when the Python
+    test holds. -/
+theorem sqlite_like_correct_partial (esc : Char) (h1 : esc ≠ '%')
     (k : Kind) (p s : List Char) :
     likeSqlite false (some esc) (wrap k (escapeLike esc p)) s = true ↔ Holds k p s := by
-  rw [escapeLike_eq_lit_ordinary esc h1 h2]
+  rw [escapeLike_eq_lit]
+  have hA := mAll_of_ne esc h1
+  have hl := lit_Lit esc p
   cases k with
   | startswith =>
-    rw [sqlite_startswith_raw false esc h1 h2, eqv_false]
+    rw [sqlite_startswith_Lit false _ hA hl, eqv_false]
     exact stripPrefix_isSome_iff p s
   | endswith =>
-    rw [sqlite_endswith_raw false esc h1 h2, eqv_false]
+    rw [sqlite_endswith_Lit false _ hA hl, eqv_false]
     exact raw_suffix_iff p s
   | contains =>
-    rw [sqlite_contains_raw false esc h1 h2, eqv_false]
+    rw [sqlite_contains_Lit false _ hA hl, eqv_false]
     exact raw_infix_iff p s
+
+example : likeSqlite false (some '_') (wrap .contains (escapeLike '_' ['%'])) ['a', '%'] = true := by decide
+example : likeSqlite false (some '_') (wrap .contains (escapeLike '_' ['%'])) ['_', 'x'] = false := by decide
 
 example : likeSqlite false (some '/') (wrap .contains (escapeLike '/' ['%', '_'])) ['a', '%', '_', 'b'] = true := by
   decide
@@ -96,20 +94,22 @@ example : likeSqlite false (some '/') (wrap .contains (escapeLike '/' ['%', '_']
 
 /-- SQLite's default configuration (LIKE is ASCII case-insensitive): the same operators
     implement the case-folded test. -/
-theorem sqlite_like_nocase_correct_partial (esc : Char) (h1 : esc ≠ '%') (h2 : esc ≠ '_')
+theorem sqlite_like_nocase_correct_partial (esc : Char) (h1 : esc ≠ '%')
     (k : Kind) (p s : List Char) :
     likeSqlite true (some esc) (wrap k (escapeLike esc p)) s = true ↔
       Holds k (lowerS p) (lowerS s) := by
-  rw [escapeLike_eq_lit_ordinary esc h1 h2]
+  rw [escapeLike_eq_lit]
+  have hA := mAll_of_ne esc h1
+  have hl := lit_Lit esc p
   cases k with
   | startswith =>
-    rw [sqlite_startswith_raw true esc h1 h2, eqv_true_eq_ceq]
+    rw [sqlite_startswith_Lit true _ hA hl, eqv_true_eq_ceq]
     exact raw_ci_prefix_iff p s
   | endswith =>
-    rw [sqlite_endswith_raw true esc h1 h2, eqv_true_eq_ceq]
+    rw [sqlite_endswith_Lit true _ hA hl, eqv_true_eq_ceq]
     exact raw_ci_suffix_iff p s
   | contains =>
-    rw [sqlite_contains_raw true esc h1 h2, eqv_true_eq_ceq]
+    rw [sqlite_contains_Lit true _ hA hl, eqv_true_eq_ceq]
     exact raw_ci_infix_iff p s
 
 /-! ## 3. the twelve operators as executed on SQLite -/
@@ -119,11 +119,11 @@ theorem bool_eq_of_iff {a b : Bool} (h : a = true ↔ b = true) : a = b := by
 
 /-- **sqlite_op_correct_partial** (case-sensitive operators, their negations included) -/
 theorem sqlite_op_correct_partial (op : Op) (escape : Option Char) (p s : List Char)
-    (hc : op.icase = false) (h1 : escape.getD defaultEscape ≠ '%') (h2 : escape.getD defaultEscape ≠ '_') :
+    (hc : op.icase = false) (h1 : escape.getD defaultEscape ≠ '%') :
     evalSqlite false op escape true p s = (pyTest op.kind p s != op.neg) := by
   have key : likeSqlite false (some (escape.getD defaultEscape))
       (wrap op.kind (escapeLike (escape.getD defaultEscape) p)) s = pyTest op.kind p s :=
-    bool_eq_of_iff ((sqlite_like_correct_partial _ h1 h2 op.kind p s).trans (pyTest_iff _ _ _).symm)
+    bool_eq_of_iff ((sqlite_like_correct_partial _ h1 op.kind p s).trans (pyTest_iff _ _ _).symm)
   simp only [evalSqlite, effective, if_true, hc, Bool.false_eq_true, if_false, key]
   cases op.neg <;> simp
 
@@ -135,11 +135,13 @@ def Caseless (e : Char) : Prop := ∀ c, lowerAscii c = e ↔ c = e
 /-- **sqlite_iop_correct_partial** (the i-variants, rendered `lower(col) LIKE … lower(?) …`;
     either `case_sensitive_like` setting) -/
 theorem sqlite_iop_correct_partial (nc : Bool) (op : Op) (escape : Option Char) (p s : List Char)
-    (hi : op.icase = true) (h1 : escape.getD defaultEscape ≠ '%') (h2 : escape.getD defaultEscape ≠ '_')
+    (hi : op.icase = true) (h1 : escape.getD defaultEscape ≠ '%')
     (h3 : Caseless (escape.getD defaultEscape)) :
     evalSqlite nc op escape true p s = (pyTest op.kind (lowerS p) (lowerS s) != op.neg) := by
   have hl : lowerS (escapeLike (escape.getD defaultEscape) p) = lit (escape.getD defaultEscape) (lowerS p) := by
-    rw [escapeLike_eq_lit_ordinary _ h1 h2, lowerS_lit _ h3]
+    rw [escapeLike_eq_lit, lowerS_lit _ h3]
+  have hA := mAll_of_ne _ h1
+  have hL := lit_Lit (escape.getD defaultEscape) (lowerS p)
   have hp := allLower_lowerS p
   have hs := allLower_lowerS s
   have key : likeSqlite nc (some (escape.getD defaultEscape))
@@ -149,10 +151,10 @@ theorem sqlite_iop_correct_partial (nc : Bool) (op : Op) (escape : Option Char) 
     rw [hl, pyTest_iff]
     cases op.kind with
     | startswith =>
-      rw [sqlite_startswith_raw nc _ h1 h2, stripPrefix_eqv_of_lower nc _ _ hp hs]
+      rw [sqlite_startswith_Lit nc _ hA hL, stripPrefix_eqv_of_lower nc _ _ hp hs]
       exact stripPrefix_isSome_iff _ _
     | endswith =>
-      rw [sqlite_endswith_raw nc _ h1 h2]
+      rw [sqlite_endswith_Lit nc _ hA hL]
       show _ ↔ lowerS p <:+ lowerS s
       rw [← raw_suffix_iff]
       constructor
@@ -163,7 +165,7 @@ theorem sqlite_iop_correct_partial (nc : Bool) (op : Op) (escape : Option Char) 
         have hpost : AllLower post := fun c hc => hs c (by rw [e]; simp [hc])
         exact ⟨pre, post, e, by rw [stripPrefix_eqv_of_lower nc _ _ hp hpost]; exact h⟩
     | contains =>
-      rw [sqlite_contains_raw nc _ h1 h2]
+      rw [sqlite_contains_Lit nc _ hA hL]
       show _ ↔ lowerS p <:+: lowerS s
       rw [← raw_infix_iff]
       constructor
@@ -205,30 +207,26 @@ theorem autoescape_default_correct (op : Op) (p s : List Char) :
   have hd : (none : Option Char).getD defaultEscape = defaultEscape := rfl
   refine ⟨fun hc => ?_, fun hi nc => ?_⟩
   · exact sqlite_op_correct_partial op none p s hc (by rw [hd]; exact gen_default.1)
-      (by rw [hd]; exact gen_default.2.1)
-  · refine sqlite_iop_correct_partial nc op none p s hi (by rw [hd]; exact gen_default.1)
-      (by rw [hd]; exact gen_default.2.1) ?_
+  · refine sqlite_iop_correct_partial nc op none p s hi (by rw [hd]; exact gen_default.1) ?_
     rw [hd]; exact caseless_of_not_letter _ gen_default.2.2.1 gen_default.2.2.2
 
 /-- explicit `escape=` without autoescape, operand escaped by the caller -/
 theorem sqlite_explicit_escape_correct_partial (op : Op) (esc : Char) (q s : List Char)
-    (hc : op.icase = false) (h1 : esc ≠ '%') (h2 : esc ≠ '_') :
+    (hc : op.icase = false) (h1 : esc ≠ '%') :
     evalSqlite false op (some esc) false (lit esc q) s = (pyTest op.kind q s != op.neg) := by
   have key : likeSqlite false (some esc) (wrap op.kind (lit esc q)) s = pyTest op.kind q s := by
-    have := sqlite_like_correct_partial esc h1 h2 op.kind q s
-    rw [escapeLike_eq_lit_ordinary esc h1 h2] at this
+    have := sqlite_like_correct_partial esc h1 op.kind q s
+    rw [escapeLike_eq_lit] at this
     exact bool_eq_of_iff (this.trans (pyTest_iff _ _ _).symm)
   simp only [evalSqlite, effective, Bool.false_eq_true, if_false, hc, key]
   cases op.neg <;> simp
 
 /-! ## 4. the SQL-standard matcher (PostgreSQL / MySQL, assumed semantics) -/
 
-/-- LIKE under the standard reading: any escape other than `%` (for `_` the operand must
-    not contain `%`, see `escapeLike_spec_counterexample`) -/
-theorem std_like_correct_partial (esc : Char) (h1 : esc ≠ '%') (k : Kind) (p s : List Char)
-    (h2 : esc ≠ '_' ∨ '%' ∉ p) :
+/-- LIKE under the standard reading: any escape other than `%` -/
+theorem std_like_correct_partial (esc : Char) (h1 : esc ≠ '%') (k : Kind) (p s : List Char) :
     likeStd false (some esc) (wrap k (escapeLike esc p)) s = true ↔ Holds k p s := by
-  rw [escapeLike_spec_partial esc p h2]
+  rw [escapeLike_eq_lit]
   cases k with
   | startswith =>
     rw [std_startswith_raw false esc h1, ceq_false]
@@ -241,11 +239,10 @@ theorem std_like_correct_partial (esc : Char) (h1 : esc ≠ '%') (k : Kind) (p s
     exact raw_infix_iff p s
 
 /-- native ILIKE (PostgreSQL rendering): no caselessness condition on the escape -/
-theorem std_ilike_correct_partial (esc : Char) (h1 : esc ≠ '%') (k : Kind) (p s : List Char)
-    (h2 : esc ≠ '_' ∨ '%' ∉ p) :
+theorem std_ilike_correct_partial (esc : Char) (h1 : esc ≠ '%') (k : Kind) (p s : List Char) :
     likeStd true (some esc) (wrap k (escapeLike esc p)) s = true ↔
       Holds k (lowerS p) (lowerS s) := by
-  rw [escapeLike_spec_partial esc p h2]
+  rw [escapeLike_eq_lit]
   cases k with
   | startswith =>
     rw [std_startswith_raw true esc h1]
@@ -261,13 +258,6 @@ example : likeStd true (some 'a') (wrap .contains (escapeLike 'a' ['A', 'b'])) [
   decide
 
 /-! ## 5. the excluded shapes are genuinely wrong (replayed on the real code) -/
-
-/-- escape `_`, operand `%`: matches `_x`, which does not contain `%` -/
-theorem autoescape_underscore_percent_counterexample :
-    evalSqlite false ⟨.contains, false, false⟩ (some '_') true ['%'] ['_', 'x'] = true ∧
-      pyTest .contains ['%'] ['_', 'x'] = false ∧
-    evalStd false ⟨.contains, false, false⟩ (some '_') true ['%'] ['_', 'x'] = true := by
-  decide
 
 /-- escape `%`: `'a'.contains('a')` is not matched (SQLite: the trailing wildcard is a
     dangling escape; PostgreSQL raises for the same reason) -/
